@@ -210,7 +210,11 @@ func htmlBody(r *sim.Rand, n, depth int) string {
 // HTML returns a complete page.
 func HTML(r *sim.Rand) []byte {
 	var b strings.Builder
-	b.WriteString("<!DOCTYPE html><html><head><meta charset=\"utf-8\"><title>" + xmlEsc(phrase(r, 2)) + "</title></head><body>")
+	if r.Pct(25) {
+		// XHTML served as a file: an XML declaration in front
+		b.WriteString("<?xml version=\"1.0\" encoding=\"UTF-8\"?>\n")
+	}
+	b.WriteString("<!DOCTYPE html><html><head><meta charset=\"utf-8\"><title>" + xmlEsc(phrase(r, 2+r.Intn(6))) + "</title></head><body>")
 	if r.Bool() {
 		b.WriteString("<header><nav><ul><li><a href=\"/\">Home</a></li><li><a href=\"/a\">About</a></li></ul></nav></header>")
 	}
